@@ -144,8 +144,21 @@ func vhC05ResponseSetters() {
 	}
 	vl := vParam("valLen", 3)
 	allowed := append([]string(nil), c05Implied...)
-	which := vChoose("setter", 10)
+	which := vChoose("setter", 11)
 	switch which {
+	case 10: // a specially handled name through the byte-slice / canonical setters
+		sp := c05Special[vChoose("special", len(c05Special))]
+		v := c05Sym("value", vl)
+		switch vChoose("via", 4) {
+		case 0:
+			h.SetBytesKV([]byte(sp), v)
+		case 1:
+			h.SetBytesV(sp, v)
+		case 2:
+			h.SetBytesK([]byte(sp), string(v))
+		case 3:
+			h.SetCanonical([]byte(sp), v)
+		}
 	case 0:
 		nm, v := c05Name(), c05Sym("value", vl)
 		h.Set(string(nm), string(v))
